@@ -287,7 +287,7 @@ func reportViolation(t *testing.T, spec *Spec, d *D, target *Violation, dir stri
 		EventLog: hash, Minimised: len(steps) < len(orig), OrigSteps: len(orig), FaultsSeen: d.Faults, TailOfLog: tail}
 	name := fmt.Sprintf("%s-%d", d.Prop, d.Seed)
 	if d.V == nil || target != d.V {
-		name += "-" + sanitize(target.Signature)
+		name += "-" + sanitize(target.Invariant) + "-" + sanitize(target.Signature)
 	}
 	path := filepath.Join(dir, name+".json")
 	rf.ReplayCmd = "./run.sh replay " + path
